@@ -5,6 +5,7 @@ package main
 
 import (
 	"bufio"
+	"os"
 	"fmt"
 	"io"
 	"os/exec"
@@ -31,6 +32,7 @@ type SolverStats struct {
 	Seconds  float64
 	Errors   int
 	Restarts int
+	Retries  int
 }
 
 type Solver struct {
@@ -185,8 +187,17 @@ func (s *Solver) syncText(pc []*Term, sb *strings.Builder) {
 // variables are returned.
 func (s *Solver) Check(pc []*Term, extra []*Term, wantModel bool) (SatResult, map[string]uint64) {
 	t0 := time.Now()
-	defer func() { s.Stats.Seconds += time.Since(t0).Seconds() }()
+	defer func() {
+		d := time.Since(t0).Seconds()
+		s.Stats.Seconds += d
+		if dir := os.Getenv("SYMGO_SLOWLOG"); dir != "" && d > 1.0 {
+			os.WriteFile(fmt.Sprintf("%s/slow-%d-%d.smt2", dir, os.Getpid(), s.Stats.Queries), []byte(dumpQuery(pc, extra)), 0o644)
+		}
+	}()
 	s.Stats.Queries++
+	if resetMode {
+		return s.checkReset(pc, extra, wantModel)
+	}
 	var sb strings.Builder
 	s.syncText(pc, &sb)
 	sb.WriteString("(push 1)\n")
@@ -198,22 +209,38 @@ func (s *Solver) Check(pc []*Term, extra []*Term, wantModel bool) (SatResult, ma
 	for _, e := range extra {
 		fmt.Fprintf(&sb, "(assert %s)\n", ref(e))
 	}
-	sb.WriteString("(check-sat)\n")
-	lines, err := s.roundtrip(sb.String())
-	res := Unknown
-	bad := err != nil
-	for _, l := range lines {
-		switch {
-		case l == "sat":
-			res = Sat
-		case l == "unsat":
-			res = Unsat
-		case l == "unknown" || l == "timeout":
-			res = Unknown
-		case strings.Contains(l, "(error"):
-			bad = true
-			s.lastErr = l
+	// two-stage: the incremental core with a short budget first (fast on the
+	// many easy queries), then the bit-blasting tactic with the full budget
+	twoStage := s.kind != "cvc5"
+	if twoStage {
+		fmt.Fprintf(&sb, "(set-option :timeout %d)\n(check-sat)\n", fastBudgetMs)
+	} else {
+		sb.WriteString("(check-sat)\n")
+	}
+	parse := func(lines []string, err error) (SatResult, bool) {
+		res := Unknown
+		bad := err != nil
+		for _, l := range lines {
+			switch {
+			case l == "sat":
+				res = Sat
+			case l == "unsat":
+				res = Unsat
+			case l == "unknown" || l == "timeout":
+				res = Unknown
+			case strings.Contains(l, "(error"):
+				bad = true
+				s.lastErr = l
+			}
 		}
+		return res, bad
+	}
+	lines, err := s.roundtrip(sb.String())
+	res, bad := parse(lines, err)
+	if !bad && res == Unknown && twoStage {
+		s.Stats.Retries++
+		lines, err = s.roundtrip(fmt.Sprintf("(set-option :timeout %d)\n(check-sat-using qfbv)\n", s.timeoutMs))
+		res, bad = parse(lines, err)
 	}
 	if bad {
 		s.Stats.Errors++
@@ -274,33 +301,7 @@ func (s *Solver) getModel() map[string]uint64 {
 		s.lastErr = text
 		return nil
 	}
-	// parse ((name value) ...) where name may be |quoted| and value one of
-	// true/false/#x../#b../(_ bvN w)
-	toks := sexpTokens(text)
-	for i := 0; i+2 < len(toks); i++ {
-		if toks[i] != "(" || toks[i+1] == "(" || toks[i+1] == ")" {
-			continue
-		}
-		name := strings.Trim(toks[i+1], "|")
-		val := toks[i+2]
-		switch {
-		case val == "true":
-			model[name] = 1
-		case val == "false":
-			model[name] = 0
-		case strings.HasPrefix(val, "#x"):
-			v, _ := strconv.ParseUint(val[2:], 16, 64)
-			model[name] = v
-		case strings.HasPrefix(val, "#b"):
-			v, _ := strconv.ParseUint(val[2:], 2, 64)
-			model[name] = v
-		case val == "(" && i+4 < len(toks) && toks[i+3] == "_" && strings.HasPrefix(toks[i+4], "bv"):
-			v, _ := strconv.ParseUint(toks[i+4][2:], 10, 64)
-			model[name] = v
-		default:
-			continue
-		}
-	}
+	parseModel(text, model)
 	return model
 }
 
@@ -332,4 +333,179 @@ func sexpTokens(text string) []string {
 		}
 	}
 	return toks
+}
+
+// dumpQuery renders pc ∧ extra as a self-contained SMT-LIB2 script.
+func dumpQuery(pc, extra []*Term) string {
+	var sb strings.Builder
+	seen := map[int32]bool{}
+	var visit func(t *Term)
+	visit = func(t *Term) {
+		if t == nil || seen[t.id] || t.op == OpConst {
+			return
+		}
+		seen[t.id] = true
+		visit(t.a)
+		visit(t.b)
+		visit(t.c)
+		if t.op == OpVar {
+			fmt.Fprintf(&sb, "(declare-const |%s| %s)\n", t.name, sortName(t.w))
+		} else {
+			fmt.Fprintf(&sb, "(define-fun n%d () %s %s)\n", t.id, sortName(t.w), body(t))
+		}
+	}
+	for _, t := range pc {
+		visit(t)
+	}
+	for _, t := range extra {
+		visit(t)
+	}
+	for _, t := range pc {
+		fmt.Fprintf(&sb, "(assert %s)\n", ref(t))
+	}
+	for _, t := range extra {
+		fmt.Fprintf(&sb, "(assert %s)\n", ref(t))
+	}
+	sb.WriteString("(check-sat)\n")
+	return sb.String()
+}
+
+var resetMode = os.Getenv("SYMGO_SOLVER_MODE") == "reset"
+
+const fastBudgetMs = 150
+
+// checkReset sends every query as a self-contained script after (reset): the
+// solver then uses its non-incremental pipeline, which is markedly faster and
+// does not degrade over thousands of push/pop rounds.
+func (s *Solver) checkReset(pc, extra []*Term, wantModel bool) (SatResult, map[string]uint64) {
+	var sb strings.Builder
+	sb.WriteString("(reset)\n")
+	if s.kind != "cvc5" {
+		fmt.Fprintf(&sb, "(set-option :timeout %d)\n", s.timeoutMs)
+		if wantModel {
+			sb.WriteString("(set-option :produce-models true)\n")
+		}
+	} else {
+		sb.WriteString("(set-logic QF_BV)\n")
+	}
+	var vars []*Term
+	seen := map[int32]bool{}
+	var visit func(t *Term)
+	visit = func(t *Term) {
+		if t == nil || seen[t.id] || t.op == OpConst {
+			return
+		}
+		seen[t.id] = true
+		visit(t.a)
+		visit(t.b)
+		visit(t.c)
+		if t.op == OpVar {
+			fmt.Fprintf(&sb, "(declare-const |%s| %s)\n", t.name, sortName(t.w))
+			vars = append(vars, t)
+		} else {
+			fmt.Fprintf(&sb, "(define-fun n%d () %s %s)\n", t.id, sortName(t.w), body(t))
+		}
+	}
+	for _, t := range pc {
+		visit(t)
+	}
+	for _, t := range extra {
+		visit(t)
+	}
+	for _, t := range pc {
+		fmt.Fprintf(&sb, "(assert %s)\n", ref(t))
+	}
+	for _, t := range extra {
+		fmt.Fprintf(&sb, "(assert %s)\n", ref(t))
+	}
+	sb.WriteString("(check-sat)\n")
+	lines, err := s.roundtrip(sb.String())
+	res := Unknown
+	bad := err != nil
+	for _, l := range lines {
+		switch {
+		case l == "sat":
+			res = Sat
+		case l == "unsat":
+			res = Unsat
+		case l == "unknown" || l == "timeout":
+			res = Unknown
+		case strings.Contains(l, "(error"):
+			bad = true
+			s.lastErr = l
+		}
+	}
+	if bad {
+		s.Stats.Errors++
+		s.Stats.Unknown++
+		if err != nil {
+			s.lastErr = err.Error()
+		}
+		s.restart()
+		return Unknown, nil
+	}
+	var model map[string]uint64
+	if res == Sat && wantModel {
+		model = map[string]uint64{}
+		if len(vars) > 0 {
+			var gb strings.Builder
+			gb.WriteString("(get-value (")
+			for _, v := range vars {
+				gb.WriteString(ref(v))
+				gb.WriteByte(' ')
+			}
+			gb.WriteString("))\n")
+			ml, err := s.roundtrip(gb.String())
+			if err != nil {
+				s.restart()
+				return Unknown, nil
+			}
+			text := strings.Join(ml, " ")
+			if strings.Contains(text, "(error") {
+				s.lastErr = text
+				s.Stats.Unknown++
+				return Unknown, nil
+			}
+			parseModel(text, model)
+		}
+	}
+	switch res {
+	case Sat:
+		s.Stats.Sat++
+	case Unsat:
+		s.Stats.Unsat++
+	default:
+		s.Stats.Unknown++
+	}
+	return res, model
+}
+
+func parseModel(text string, model map[string]uint64) {
+	// parse ((name value) ...) where name may be |quoted| and value one of
+	// true/false/#x../#b../(_ bvN w)
+	toks := sexpTokens(text)
+	for i := 0; i+2 < len(toks); i++ {
+		if toks[i] != "(" || toks[i+1] == "(" || toks[i+1] == ")" {
+			continue
+		}
+		name := strings.Trim(toks[i+1], "|")
+		val := toks[i+2]
+		switch {
+		case val == "true":
+			model[name] = 1
+		case val == "false":
+			model[name] = 0
+		case strings.HasPrefix(val, "#x"):
+			v, _ := strconv.ParseUint(val[2:], 16, 64)
+			model[name] = v
+		case strings.HasPrefix(val, "#b"):
+			v, _ := strconv.ParseUint(val[2:], 2, 64)
+			model[name] = v
+		case val == "(" && i+4 < len(toks) && toks[i+3] == "_" && strings.HasPrefix(toks[i+4], "bv"):
+			v, _ := strconv.ParseUint(toks[i+4][2:], 10, 64)
+			model[name] = v
+		default:
+			continue
+		}
+	}
 }
